@@ -547,6 +547,8 @@ fn cmd_emit_crate(m: &BTreeMap<String, String>) {
         .and_then(|(a, b)| Some((a.parse::<usize>().ok()?, b.parse::<usize>().ok()?)))
         .unwrap_or((0, 1));
     let mut ordinal = 0usize;
+    let max_tokens: usize = get(m, "max-tokens", 0usize);
+    let mut skipped_big = 0usize;
     let out: PathBuf = get(m, "out", PathBuf::from("crate.rs"));
     let mut reqs: Vec<req::Request> = Vec::new();
     if with_pool {
@@ -569,6 +571,18 @@ fn cmd_emit_crate(m: &BTreeMap<String, String>) {
         }
         if no_user_ce && r.item.contains("compile_error") {
             continue;
+        }
+        // very large inputs are left to engine N: what rustc does with the hundreds of generated
+        // impls afterwards (name resolution, diagnostics) costs minutes and is not under test
+        if max_tokens > 0 {
+            let (na, da) = req::lex(&r.attr).map(|t| req::size_and_depth(&t)).unwrap_or((0, 0));
+            let (ni, di) = req::lex(&r.item).map(|t| req::size_and_depth(&t)).unwrap_or((0, 0));
+            // deeply nested types: rustc's own analysis of e.g. `Box<dyn Fn(Box<dyn Fn(..` 40 deep
+            // does not finish in minutes, whatever the macro generated
+            if na + ni > max_tokens || da.max(di) > 14 {
+                skipped_big += 1;
+                continue;
+            }
         }
         // source text cannot express a None-delimited group: such a request is handed to the
         // compiler the way it arises in practice, through a `macro_rules!` wrapper whose
@@ -618,7 +632,7 @@ fn cmd_emit_crate(m: &BTreeMap<String, String>) {
     std::fs::write(&out, src).unwrap_or_else(|e| harness_error(&format!("{}: {e}", out.display())));
     let idx = out.with_extension("index.json");
     std::fs::write(&idx, serde_json::to_string(&index).unwrap()).unwrap_or_else(|e| harness_error(&format!("{e}")));
-    println!("emit-crate: {k} modules -> {}", out.display());
+    println!("emit-crate: {k} modules -> {} ({skipped_big} skipped as too large)", out.display());
 }
 
 /// Prints the source text that hands the last request of a replay file to a real compiler
